@@ -36,8 +36,11 @@ def parseSvgOp (t : String) : Option Svg.Op :=
   | ["ip", x, y] => (parseF x).bind fun a => (parseF y).map fun b => Svg.Op.imagePosition a b
   | _ => none
 
+/-- A token `bad:<k>:<len>` stands for a colour setter called with a byte vector the crate rejects by panicking while
+converting the argument (before any field is assigned); the harness catches the panic and goes on using the builder.
+Model: a rejected call changes nothing, so the token is dropped. -/
 def parseSvgOps (s : String) : Option (List Svg.Op) :=
-  if s == "-" then some [] else (s.splitOn ";").mapM parseSvgOp
+  if s == "-" then some [] else ((s.splitOn ";").filter fun t => !t.startsWith "bad:").mapM parseSvgOp
 
 /-- decimal text "12", "-3.25", "0.50" to an exact rational as (numerator, denominator = 10^k) -/
 def parseDecimal (s : String) : Option (Int × Nat) :=
